@@ -127,6 +127,8 @@ type Conn struct {
 	Closed     bool  // closed by a fault / op
 	closedSeq  int64 // when
 	Unreg      bool  // the pool's disconnect callback ran
+	unregSeq   int64 // when it had run
+	regSeq     int64 // when the pool wrote the reply to a host registration on this connection (0 = never)
 	acks       []ackEv
 	reqMethods map[string]string // rpc id -> nodeID param of reverse calls seen by the agent end
 	replies    []replyEv
@@ -307,7 +309,7 @@ func NewWorld(s *kernel.Sim, cfg WorldCfg) *World {
 		panic(err)
 	}
 	w.Inner = inner
-	s.OnTeardown(func() { inner.Close() })
+	s.OnTeardown(func() { seams.CloseStore(s, inner) })
 	w.YS = seams.NewYieldStore(s, inner, cfg.Driver)
 	w.modelNow = time.Now()
 	w.Ref = models.NewRefStore(func() time.Time { return w.modelNow })
@@ -454,6 +456,13 @@ func (w *World) Dial(a *Actor) *Conn {
 		seq := w.nextSeq()
 		w.mu.Lock()
 		c.replies = append(c.replies, replyEv{ID: string(m.ID), Seq: seq, At: time.Now(), Raw: raw})
+		if a.IsHost && !strings.Contains(string(raw), `"error"`) {
+			for _, rq := range c.reqReads {
+				if rq.ID == string(m.ID) && (rq.Method == "vipnode_connect" || rq.Method == "vipnode_host") {
+					c.regSeq = seq
+				}
+			}
+		}
 		w.mu.Unlock()
 	}
 	w.mu.Lock()
@@ -466,6 +475,8 @@ func (w *World) Dial(a *Actor) *Conn {
 		w.Pool.CloseRemote(c.PoolSide)
 		w.mu.Lock()
 		c.Unreg = true
+		w.seq++
+		c.unregSeq = w.seq
 		w.mu.Unlock()
 	})
 	a.Conn = c
